@@ -1189,6 +1189,14 @@ func (p *BinaryProtocol) ReadBaseTypeWithDesc(desc *proto.TypeDescriptor, hasMes
 		}
 		// read repeat until sumLength equals MessageLength
 		start := p.Read
+		if messageLength < 0 || start+messageLength > len(p.Buf) {
+			return nil, io.ErrUnexpectedEOF
+		}
+		// the fields of this message must not read beyond its end: an unpacked list or map at the end of
+		// a sub-message would otherwise swallow the parent's following elements that carry the same field number
+		whole := p.Buf
+		p.Buf = p.Buf[:start+messageLength]
+		defer func() { p.Buf = whole }()
 		for p.Read < start+messageLength {
 			fieldNumber, wireType, tagLen, fieldTagErr := p.ConsumeTagWithoutMove()
 			if fieldTagErr != nil {
